@@ -235,7 +235,11 @@ class ReferenceCache:
         if not any(block.references) and block not in self._references:
             # No direct or indirect references, so nothing to retarget.
             return
-        assert to_block
+        if to_block is None:
+            # Earlier retargets may have left empty trees registered for the
+            # block; as long as nothing refers to it there is nothing to do.
+            assert not any(self.get_references(block))
+            return
 
         # Get indirect references and detach them from the block.
         if block in self._references:
